@@ -424,20 +424,155 @@ def discharge(R, fn_name, paths, prefix, backend='z3'):
     return len(paths)
 
 
+class _Opaque:
+    def __init__(self, name):
+        self.name = name
+
+    def __repr__(self):
+        return f'<{self.name}>'
+
+
+def cleanup_bounded_paths(verbose, nkeys, in_age_table):
+    """the REAL cleanup_cache (code object, not cut up) on a cache with `nkeys` concrete keys and symbolic ages, sizes,
+    importances and settings: every path; shape-agnostic (no assumption on how the function is written)."""
+    import types
+    import aurel.core as C
+    real = C.AurelCore.cleanup_cache
+    keys = [f'q{n}' for n in range(nkeys)]
+
+    def run():
+        c = SX.ctx()
+        c.timeout_ms = 5000
+        sizes = {k: fresh_nonneg(c, f'size_{k}') for k in keys}
+        budget = [0]
+
+        def get_size(obj):
+            budget[0] += 1
+            if budget[0] > 60:
+                raise SX.PathAbort('more than 60 size queries on a 3-entry cache: the clean-up does not terminate')
+            if isinstance(obj, _Opaque):
+                return sizes[obj.name]
+            return fresh_nonneg(c, 'total_size')
+
+        class Sys:
+            def getsizeof(self, x):
+                return fresh_nonneg(c, 'getsizeof')
+
+            def __getattr__(self, n):
+                import sys
+                return getattr(sys, n)
+        g = dict(real.__globals__)
+        g.update(get_size=get_size, sys=Sys())
+        fn = types.FunctionType(real.__code__, g, real.__name__, real.__defaults__, real.__closure__)
+        s = types.SimpleNamespace()
+        s.data = {k: _Opaque(k) for k in keys}
+        s.last_accessed = {k: Z(c.new_int(f'last_{k}')) for k, inn in zip(keys, in_age_table) if inn}
+        s.var_importance = {}
+        imp = {}
+        for k in keys:
+            v = z3.Real(f'imp_{k}')
+            c.assume(v >= 0)
+            imp[k] = v
+            s.var_importance[k] = Z(v)
+        s.calculation_count = Z(z3.Int('count'))
+        s.clear_cache_every_nbr_calc = Z(z3.Int('every'))
+        s.memory_threshold_inGB = Z(z3.Real('thrGB'))
+        c.assume(s.clear_cache_every_nbr_calc.e >= 1)
+        c.assume(s.memory_threshold_inGB.e > 0)
+        s.param = {}
+        for a in 'xyz':
+            n = z3.Int('N' + a)
+            c.assume(n >= 1)
+            s.param['N' + a] = Z(n)
+        s.verbose = verbose
+        s.myprint = lambda msg: None
+        last0 = {k: v.e for k, v in s.last_accessed.items()}
+        try:
+            fn(s)
+        except (SX.PathAbort, SX.Infeasible, SX.PathEnd):
+            raise
+        except Exception as e:
+            c.require(f'clean-up does not raise ({type(e).__name__}: {str(e)[:80]})', z3.BoolVal(False))
+            return
+        c.require('clean-up does not raise', z3.BoolVal(True))
+        removed = [k for k in keys if k not in s.data]
+        c.require('only entries are removed: no key is added, no value replaced',
+                  z3.BoolVal(set(s.data) <= set(keys) and all(isinstance(v, _Opaque) and v.name == k for k, v in s.data.items())))
+        c.require('age table afterwards describes only cached entries, and deletions are paired',
+                  z3.BoolVal(set(s.last_accessed) <= set(s.data) and all((k in s.last_accessed) == (k in last0) for k in s.data)))
+        for k in removed:
+            if k not in last0:
+                c.require('an entry that was never accessed through the cache (not in the age table) is not removed', z3.BoolVal(False))
+                continue
+            c.require('a removed entry is not frozen (importance != 0)', imp[k] != 0)
+            c.require('a removed entry was last used more than one calculation ago', s.calculation_count.e - last0[k] > 1)
+        c.require('importance table untouched', z3.BoolVal(all(isinstance(s.var_importance.get(k), Z) and z3.eq(s.var_importance[k].e, imp[k]) for k in keys)
+                                                           and set(s.var_importance) == set(keys)))
+    return explore(run, max_paths=3000)
+
+
+def cleanup_bounded(R, why):
+    """fall-back when the loop contracts do not match the present shape of cleanup_cache"""
+    import itertools
+    R.notes.append(f'cleanup_cache: the loop contracts (unbounded proof) could not be matched to the current source ({why}); '
+                   'bounded all-paths check of the real function on caches of <= 3 entries instead')
+    R.bounded.append(dict(function='aurel.core.AurelCore.cleanup_cache', bound='caches of 0..3 entries x every subset in the age table x verbose on/off; ages, sizes, importances, settings symbolic'))
+    agg = {}
+    t0 = time.time()
+    npaths = 0
+    for verbose in (True, False):
+        for n in range(0, 4):
+            for inn in itertools.product((True, False), repeat=n):
+                try:
+                    paths = cleanup_bounded_paths(verbose, n, inn)
+                except SX.PathAbort as e:
+                    agg.setdefault('paths', dict(valid=0, invalid=[], unknown=[]))['unknown'].append(f'{n} keys {inn}: {e}')
+                    continue
+                npaths += len(paths)
+                for res, c in paths:
+                    for name, goal, pc in c.obls:
+                        key = name.split(' (')[0] if name.startswith('clean-up does not raise') else name
+                        rec = agg.setdefault(key, dict(valid=0, invalid=[], unknown=[]))
+                        if rec['invalid']:
+                            continue
+                        v, model, secs = prove(pc, goal, timeout_ms=10000)
+                        if v == 'valid':
+                            rec['valid'] += 1
+                        elif v == 'invalid':
+                            rec['invalid'].append(f'{name}; cache of {n} entries, in age table {inn}, verbose={verbose}: {str(model)[:300]}')
+                        else:
+                            rec['unknown'].append(str(model))
+    R.paths += npaths
+    secs = time.time() - t0
+    for name, rec in agg.items():
+        st = 'refuted' if rec['invalid'] else ('undecided' if rec['unknown'] else 'bounded-ok')
+        R.ob(f'core.cleanup_cache[bounded, all paths]:{name}', 'cleanup_cache', st, 'z3-paths', secs / max(len(agg), 1),
+             rec['invalid'][0] if rec['invalid'] else (rec['unknown'][0] if rec['unknown'] else f'{rec["valid"]} path instance(s)'),
+             [name] if rec['invalid'] else None, bounded='caches of <= 3 entries', replay=native_history_replay)
+
+
 def cleanup_obligations(R):
     import aurel.core as C
     R.under_contract(C.AurelCore.cleanup_cache)
+    mismatch = None
+    results = []
     for verbose in (True, False):
         t0 = time.time()
         try:
             paths = cleanup_paths(verbose)
         except SX.PathAbort as e:
-            R.ob(f'core.cleanup_cache[verbose={verbose}]:paths', 'cleanup_cache', 'undecided', 'z3', time.time() - t0, str(e))
-            continue
-        except (KeyError, TypeError, AttributeError, IndexError) as e:
-            R.ob(f'core.cleanup_cache[verbose={verbose}]:no-exception', 'cleanup_cache', 'refuted', 'z3', time.time() - t0,
-                 f'{type(e).__name__}: {e}', ['raises'])
-            continue
+            mismatch = f'verbose={verbose}: {e}'
+            break
+        except (KeyError, TypeError, AttributeError, IndexError, NameError, SyntaxError, ValueError) as e:
+            # raised by the contract driver itself (a local it expects is not there, a statement form it does not execute):
+            # a limit of the sidecar contracts, never a verdict on the code
+            mismatch = f'verbose={verbose}: {type(e).__name__}: {e}'
+            break
+        results.append((verbose, paths))
+    if mismatch is not None:
+        cleanup_bounded(R, mismatch)
+        return
+    for verbose, paths in results:
         R.paths += len(paths)
         discharge(R, 'cleanup_cache', paths, f'core.cleanup_cache[verbose={verbose}]')
 
@@ -561,6 +696,7 @@ class Foreach:
         c = SX.ctx()
         k = c.new_int('k!each')
         gk = GK(k, self.sd.dom)
+        c.assume(z3.Select(self.sd.dom, k))          # the generic key is one of the iterated map
         npc = len(c.pc)
         Foreach.active.append(gk)
         done = False
@@ -621,10 +757,15 @@ class FDict(SDict):
     def __iter__(self):
         return iter(Foreach(self, 'keys'))
 
+    column_valued = False
+
     def __getitem__(self, k):
         for g in Foreach.active:
             if not (isinstance(k, GK) and k is g) and self.log:
                 raise SX.PathAbort('foreach body reads a written map at a foreign key')
+        if self.column_valued and isinstance(k, GK):
+            SX.ctx().require(f'{self.name}[key]: key present (no KeyError)', self.has(k))
+            return Column(self, k)
         return SDict.__getitem__(self, k)
 
     def __setitem__(self, k, v):
@@ -742,6 +883,7 @@ def freeze_obligations(R):
                 c.require('data and the age table are not written', z3.BoolVal(not s.data.log and not s.last_accessed.log))
             else:
                 sim = FDict('sim_data')
+                sim.column_valued = True
                 it = Z(c.new_int('iteration'))
                 fn(s, sim, it)
                 d1, v1, imp1 = s.data.dom, s.data.val, s.var_importance.arr
